@@ -51,7 +51,12 @@ def make_data(cfg):
         d.rdm_descriptors['g'] = [['gb', 'ga', 'gd', 'gc', 'ge'][v] for v in rg]
     if pg is not None:
         # grouping is a function of the condition id (copies share the group of their original)
-        d.pattern_descriptors['pg'] = [[30, 10, 20, 50, 40, 60, 70][pg[c]] for c in cids]
+        if cfg.get('pat_labels') == 'str':
+            # string labels, some of which are substrings of others (stim1 / stim10 / stim11)
+            vals = [['stim10', 'stim1', 'stim11', 'stim2', 'stim21', 'stim', 'stim12'][pg[c]] for c in cids]
+        else:
+            vals = [[30, 10, 20, 50, 40, 60, 70][pg[c]] for c in cids]
+        d.pattern_descriptors['pg'] = np.array(vals) if cfg.get('container') == 'ndarray' else vals
     return d
 
 
@@ -89,6 +94,8 @@ def call_generator(cfg, data):
     if g == 'sets_of_k_rdm':
         return CV.sets_of_k_rdm(data, rdm_descriptor=rd, k=cfg['size'], random=cfg['random'])
     if g == 'sets_of_k_pattern':
+        if cfg.get('default_descriptor'):
+            return CV.sets_of_k_pattern(data, k=cfg['size'], random=cfg['random'])    # pattern_descriptor=None
         return CV.sets_of_k_pattern(data, pattern_descriptor=pd, k=cfg['size'], random=cfg['random'])
     if g == 'sets_random':
         return CV.sets_random(data, n_rdm=cfg['n_test_rdm'], n_pattern=cfg['n_test_pattern'], n_cv=cfg['n_cv'],
@@ -273,6 +280,19 @@ def configs(tier):
             for cids in variants:
                 base = {'n_rdm': 2, 'n_cond': n_cond, 'rdm_desc': 'index', 'rdm_groups': None, 'pat_desc': pd,
                         'pat_groups': pg, 'cids': cids}
+                if pd == 'pg' and cids is None:
+                    # string group labels with substring relations, and array-typed descriptors
+                    sbase = dict(base, pat_labels='str')
+                    out.append(dict(sbase, gen='sets_leave_one_out_pattern'))
+                    out.append(dict(sbase, gen='sets_k_fold_pattern', k_pattern=2, random=False))
+                    out.append(dict(sbase, gen='sets_k_fold_pattern', k_pattern=2, random=True, container='ndarray'))
+                if pd == 'index' and cids is None:
+                    out.append(dict(base, gen='sets_of_k_pattern', size=1, random=False, default_descriptor=True))
+                if pd == 'cid' and cids is None:
+                    # strictly increasing array-typed descriptor: shares memory with the data object
+                    abase = dict(base, container='ndarray')
+                    out.append(dict(abase, gen='sets_k_fold_pattern', k_pattern=2, random=True))
+                    out.append(dict(abase, gen='sets_of_k_pattern', size=1, random=True))
                 out.append(dict(base, gen='sets_leave_one_out_pattern'))
                 for k in range(1, ngp + 1):
                     for rnd in (False, True):
@@ -294,6 +314,10 @@ def configs(tier):
                         for k_pattern in range(1, min(ngp, 3) + 1):
                             for rnd in (False, True):
                                 out.append(dict(base, gen='sets_k_fold', k_rdm=k_rdm, k_pattern=k_pattern, random=rnd))
+                    if pd == 'cid' and cids is None:
+                        abase = dict(base, container='ndarray')
+                        out.append(dict(abase, gen='sets_k_fold', k_rdm=min(2, ngr), k_pattern=2, random=True))
+                        out.append(dict(abase, gen='sets_random', n_test_rdm=min(1, ngr - 1), n_test_pattern=1, n_cv=2, random=True))
                     for n_tr in range(0, ngr):
                         for n_tp in range(0, ngp - 1):
                             if n_tr == 0 and n_tp == 0:
@@ -321,6 +345,11 @@ def shards(tier, seed):
     return out
 
 
+def _content(rdms):
+    from mc.util import fingerprint
+    return fingerprint([rdms.dissimilarities, selfdesc._strip(rdms.rdm_descriptors), selfdesc._strip(rdms.pattern_descriptors)])
+
+
 def _explore_cfg(cfg, ctx, tier, each):
     """run `each(env, data, sets)` for every shuffle history of the generator under cfg"""
     limit = 400 if tier == 'quick' else 40000
@@ -328,9 +357,13 @@ def _explore_cfg(cfg, ctx, tier, each):
 
     def run(env):
         data = make_data(cfg)
+        fp = _content(data)
         rng = rngenv.RngEnv(env)
         with rngenv.installed(rng):
             sets = call_generator(cfg, data)
+        if _content(data) != fp:
+            ctx.fail('%s|source-object-modified' % cfg['gen'], {'kind': 'structure', 'cfg': cfg, 'choices': env.choices},
+                     'the fold generator changed the RDMs object it was given (descriptors / values)')
         return data, sets, rng.calls
     # first pass: is the full product small enough?  estimate from the default execution
     env0 = choice.Env([])
@@ -450,7 +483,10 @@ def _leakage(cfg, ctx):
             ctx.states += 1
             evaluated = [i for i in range(len(ids)) if not np.isnan(scores[i])]
             if len(thetas) != len(evaluated):
-                raise HarnessError('fitter calls %d != evaluated folds %d' % (len(thetas), len(evaluated)))
+                ctx.fail(sigp + '|fold-not-fitted-on-its-training-set', case0,
+                         '%d fitter calls for %d evaluated folds: some fold\'s parameters were not fitted on that '
+                         'fold\'s training set' % (len(thetas), len(evaluated)))
+                continue
             for r in range(n_rdm):
                 for k, (a, b) in enumerate(pairs):
                     # which folds have this entry as test-only / train-only?
